@@ -30,7 +30,7 @@ def plain_sites(torch, nn, model, xs):
     return sites, list(y.shape)
 
 
-def plain_cost(torch, nn, model, sites, spec, names):
+def plain_cost(torch, nn, model, sites, spec, names, generic_for=()):
     """the metric computed from scratch on a plain nn.Module: the spec's own lookup on the layer's own (static)
     attributes, applied to those attributes (sizes as 0-d tensors, like PIT hands them over) + output shape;
     shared specs count a layer once (first invocation), the others once per invocation; `names` = layers counted"""
@@ -38,7 +38,10 @@ def plain_cost(torch, nn, model, sites, spec, names):
     for nm, mod in model.named_modules():
         if nm not in sites or nm not in names or not sites[nm]:
             continue
-        fn = spec[(type(mod), vars(mod))]
+        lv = vars(mod)
+        if nm in generic_for:          # look the function up as if the layer did not satisfy conv_dw_constraint
+            lv = dict(lv, groups=-1)
+        fn = spec[(type(mod), lv)]
         for shp in (sites[nm][:1] if spec.shared else sites[nm]):
             v = dict(vars(mod))
             for k in ('in_channels', 'out_channels', 'in_features', 'out_features'):
@@ -58,6 +61,17 @@ def layer_attrs(nn, mod):
 
 def numel_of(nn, mod):
     return mod.weight.numel() + (mod.bias.numel() if mod.bias is not None else 0)
+
+
+def degenerate_layers(o):
+    """FULL convolutions (not groups == in == out before the search) whose exported version has
+    groups == in_channels == out_channels (1 -> 1 channels)"""
+    out = []
+    for L in o.get('layers', []):
+        e = o.get('exported', {}).get(L['name'])
+        if L['search'] and e and L['kind'] != 'linear' and not (L['groups'] == L['cin'] == L['cout']) and e['cin'] == e['cout'] == e['groups']:
+            out.append(L['name'])
+    return out
 
 
 # ----------------------------------------------------------------------------- calculators as terms
@@ -121,6 +135,25 @@ def read_costs(p, names, single):
     return out
 
 
+def stem_excludable(spec, s):
+    """excluding a layer is only well-defined (C09) when nothing ties its output width to a prunable tensor:
+    here the stem (fed by the network input) when its features reach no residual add and no depthwise conv"""
+    p = cn._plain(spec)
+    nodes = p['nodes']
+
+    def origin(j):
+        j = cn.ga.feeds_through_propagating(p, j)
+        while nodes[j]['k'] in ('conv1d', 'conv2d') and nodes[j]['groups'] > 1:
+            j = cn.ga.feeds_through_propagating(p, nodes[j]['src'])
+        return j
+    for nd in nodes:
+        if nd['k'] == 'add' and any(origin(x) == s for x in nd['src']):
+            return False
+        if nd['k'] in ('conv1d', 'conv2d') and nd['groups'] > 1 and origin(nd['src']) == s:
+            return False
+    return True
+
+
 def net_case(torch, seed, opts=None):
     """opts may force: spec (a grammar spec), style, single, full_cost, exclude, names, tpat"""
     import torch.nn as nn
@@ -146,7 +179,7 @@ def net_case(torch, seed, opts=None):
     if 'exclude' in opts:
         excl = list(opts['exclude'])
     else:
-        excl = [cn.ga.name(rng.choice(cl))] if rng.random() < 0.35 else []
+        excl = [cn.ga.name(cl[0])] if (rng.random() < 0.35 and stem_excludable(spec, cl[0])) else []
     o.update(single=single, names=names, full_cost=full, style=style, exclude=excl, dim=dim, discrete_at_init=dc0)
     try:
         specs = get_specs(names)
@@ -194,6 +227,8 @@ def net_case(torch, seed, opts=None):
                 exp_layers[nm] = dict(layer_attrs(nn, mod), sites=sites1[nm], numel=numel_of(nn, mod))
         o['exported'] = exp_layers
         o['exp_plain'] = {n: plain_cost(torch, nn, e, sites1, specs[n], counted) for n in names}
+        o['degenerate'] = degenerate_layers(o)
+        o['exp_plain_generic'] = {n: plain_cost(torch, nn, e, sites1, specs[n], counted, generic_for=o['degenerate']) for n in names}
         o['exp_numel'] = sum(v['numel'] for nm, v in exp_layers.items() if nm in counted)
         pe = PIT(e, cost=cost_arg, input_shape=tuple(spec['input_shape']), discrete_cost=dc0, full_cost=full, exclude_names=excl)
         pe.eval()
